@@ -7,6 +7,8 @@ Helper lemmas: `Proofs/C08.lean`.
 -/
 import Mahotas.Proofs.C08
 import Mahotas.Proofs.C08Kernels
+import Mahotas.Proofs.C08Defined
+import Mahotas.Proofs.C05Nd
 import Mahotas.Proofs.C13BBox
 import Mathlib.Data.List.Basic
 import Mahotas.Generated.Normalise
@@ -489,6 +491,88 @@ theorem C08_hitmiss_layout_free_partial (mA₁ mA₂ mB₁ mB₂ : Int → Int) 
   · have hev2 : ¬ C14.hmEvaluated vA₁.shape vB₂.shape (vA₂.flatToPos (i : Int)) = true := by
       rw [← hf2p, ← hB.1]; exact hev
     rw [if_neg hev, if_neg hev2]
+
+/-- **distance: every line is addressed by its own stride.** `distance.py` (as repaired) runs the exact 1-D pass on
+`(1, n)` views `lines[idx][None, :]` of the work array: the `t`-th element `_distance.dt` reads from the line
+through `p` along `axis` (`f[t*stride]`) is the logical element at `p` with coordinate `axis` replaced by `t`, for all
+strides of the array. -/
+theorem C08_distance_lines_layout_free {α : Type} (mem : Int → α) (v : View) (wf : v.WF) (axis : Nat)
+    (p : List Nat) (hp : inside v.shape (p.map Int.ofNat) = true) (ha : axis < v.shape.length) (d : α) :
+    lineVals mem v axis p =
+      (List.range (v.shape.getD axis 0)).map fun (t : Nat) =>
+        (toImg mem v).getD ((p.map Int.ofNat).set axis (t : Int)) d := by
+  have hpl : p.length = v.shape.length := by simpa using C01.inside_length hp
+  unfold lineVals
+  apply List.map_congr_left
+  intro t ht
+  have ht' : t < v.shape.getD axis 0 := List.mem_range.1 ht
+  rw [lineView_addr v axis p t (by rw [hpl, wf.len]) (by rw [hpl]; exact ha)]
+  have hin := C05.inside_set v.shape (p.map Int.ofNat) axis (t : Int) hp (by omega) (by exact_mod_cast ht')
+  rw [toImg_getD mem v _ d hin]
+  unfold View.addr
+  rw [← elemOffset_ofNat, List.map_set]
+  rfl
+
+/-- **F15, erode (as repaired).** Started on an output nobody has written (`none` everywhere), `erode<T>` leaves no
+cell unwritten — also for an empty structuring element, where it fills the output with the dtype maximum. -/
+theorem C08_defined_everywhere_erode (dt : DT) (mA : Int → Int) (vA : View) (mB : Int → Int) (vB : View) :
+    (erodeView dt mA vA mB vB).size = shapeSize vA.shape ∧ AllSome (erodeView dt mA vA mB vB) := by
+  unfold erodeView
+  simp only
+  split <;> exact pixelLoop_defined _ _
+
+/-- **F15, dilate.** `std::fill` writes every cell before the scatter, and the scatter only overwrites. -/
+theorem C08_defined_everywhere_dilate (dt : DT) (mA : Int → Int) (vA : View) (mB : Int → Int) (vB : View) :
+    (dilateView dt mA vA mB vB).size = shapeSize vA.shape ∧ AllSome (dilateView dt mA vA mB vB) :=
+  dilateView_defined dt mA vA mB vB
+
+/-- **F15, the one-write-per-pixel kernels**: locmin_max and borders (on the zero-filled output they are handed),
+convolve, mean_filter, template_match, hitmiss write every cell of their output. -/
+theorem C08_defined_everywhere_pixel_kernels (m : Mode) (isMin : Bool) (mA : Int → Int) (vA : View) (mB : Int → Int)
+    (vB : View) :
+    AllSome (locView isMin mA vA mB vB) ∧ AllSome (bordersView m mA vA mB vB) ∧
+    AllSome (convolveView 0 (fun x => x == 0) id m mA vA mB vB) ∧ AllSome (meanView m mA vA mB vB) ∧
+    AllSome (tmView m mA vA mB vB) ∧ AllSome (hitmissView mA vA mB vB) :=
+  ⟨(markLoop_defined _ _).2, (markLoop_defined _ _).2, (pixelLoop_defined _ _).2, (pixelLoop_defined _ _).2,
+   (pixelLoop_defined _ _).2, (pixelLoop_defined _ _).2⟩
+
+/-- **F15, cwatershed (as repaired: both outputs zero-filled).** The label and the lines output keep the size of
+the zero-filled arrays the kernel starts from and are only overwritten in place: a pixel no marker reaches holds the
+zero of the fill, never stale memory. -/
+theorem C08_defined_everywhere_cwatershed (mS : Int → Int) (vS : View) (mM : Int → Int) (vM : View)
+    (mB : Int → Int) (vB : View) :
+    (cwatershedView mS vS mM vM mB vB).res.size = shapeSize vS.shape ∧
+    (cwatershedView mS vS mM vM mB vB).lines.size = shapeSize vS.shape :=
+  modelRun_sized _ _ _ _ _ (modelInit_sized _ _)
+
+/-- **F15, rank_filter (partial).** With `rank` outside `[0, N2)` the native kernel returns at once and *no* cell is
+written (the defect b48a666 repaired by a guard in the wrapper); inside the range every pixel `i` receives
+`nth_element`'s answer for the gathered samples. *Gap:* that this answer exists (`currank <` number of samples, which
+can only fail in `ignore` mode with a footprint that misses the image entirely) is not proved. -/
+theorem C08_defined_everywhere_rank_filter_partial (m : Mode) (rank : Int) (mA : Int → Int) (vA : View)
+    (mB : Int → Int) (vB : View) :
+    let fv := mkFiltV (fun x => x != 0) vA mB vB m true
+    ((rank < 0 ∨ rank ≥ (fv.fi.size : Int)) →
+      rankView m rank mA vA mB vB = Array.replicate (shapeSize vA.shape) none) ∧
+    (¬ (rank < 0 ∨ rank ≥ (fv.fi.size : Int)) →
+      (rankView m rank mA vA mB vB).size = shapeSize vA.shape ∧
+      ∀ i, i < shapeSize vA.shape →
+        (rankView m rank mA vA mB vB).getD i none =
+          C07.nthElement (gatherInner m (fv.neigh 0 mA (iterPtr vA i) i))
+            (C07.curRank (gatherInner m (fv.neigh 0 mA (iterPtr vA i) i)).length fv.fi.size rank.toNat)) := by
+  intro fv
+  constructor
+  · intro h
+    unfold rankView
+    simp only
+    rw [if_pos h]
+  · intro h
+    unfold rankView
+    simp only
+    rw [if_neg h, pixelLoop_eq]
+    refine ⟨by simp, fun i hi => ?_⟩
+    simp [Array.getD_eq_getD_getElem?, hi]
+    rfl
 
 /-! non-vacuity: a reversed, transposed, gapped 3×2×2 view (negative and non-monotone strides, offset
     base) is well-formed; the iterator, `at_flat` and the address map agree on all 12 elements, and it
